@@ -85,8 +85,8 @@ CHECKS["C21"] = dict(
         "the integer helpers re-translated from strided_interval.py on every run and are compared result-for-result with the real code. "
         "All other transfer functions (mul, div, mod, and/or/xor, shifts, sign extension, extraction, concat, eq) are NOT modelled: "
         "they are swept directly -- exhaustively at widths 1-2 (1-3 in the thorough tier), sampled above -- and are unsound on the "
-        "pinned tree in 14 operations; those are known findings identified by (operation, input). Eight defects (sub, bitwise_not, "
-        "zero_extend, n_values, the two bounds functions, eval of a singleton, __neg__) were repaired.",
+        "pinned tree in 10 operations; those are known findings identified by (operation, input). Ten defects (sub, bitwise_not, "
+        "zero_extend, n_values, __mod__, pseudo_join, the two bounds functions, eval of a singleton, __neg__) were repaired.",
    design="5/C21", technique="Coq soundness proofs for add/sub/neg/not/zero_extend/the eight order comparisons over translated helpers; exhaustive small-width sweep of the real code for the rest",
    note="Trusted: Coq kernel; tools/py2coq.py; Model/SI.v, Model/SICmp.v, Model/SINot.v, Model/SIZextM.v, Model/SIUnion.v hand-written; sweep oracle = member enumeration from the definition. "
         "Much of this property is decided by testing, not proof; the known-findings list is large (known/C21.txt.gz).")
@@ -99,11 +99,16 @@ CHECKS["C22"] = dict(
         "(Model/SIQuery.v) and compared result-for-result (max, min, eval(n) in both signednesses on ~5800 intervals per run): unsigned min "
         "is exactly the least member (C22_min_exact), unsigned eval lists members only (C22_eval_members), max is an upper and min a lower "
         "bound of every member in either signedness (C22_max_upper_partial, C22_min_lower_partial -- partial because max is not always a "
-        "member: C22_max_not_member_refuted, a known finding). least_upper_bound of three or more, intersection, widen and solution are NOT "
-        "modelled: they are swept directly on the real code (all intervals and pairs of width 1-2, 1-3 thorough, samples above); "
+        "member: C22_max_not_member_refuted, a known finding). pseudo_join with either value of smart_join contains both operands "
+        "(C22_join) and least_upper_bound of any number of intervals -- the stable sort by lower bound, the fold of every rotation with "
+        "pseudo_join(smart_join=False), the candidate with the fewest values -- contains every operand (C22_lub); both are compared "
+        "result-for-result with the real code (about 3400 pairs and 4700 triples/quadruples per quick run). intersection, widen and "
+        "solution are NOT modelled: they are swept directly on the real code (all intervals and pairs of width 1-2, 1-3 thorough, samples "
+        "above; least_upper_bound also on every triple at width 2 and samples of 3-4 operands at widths 3, 4); "
         "widen, intersection, solution and min/max on intervals with a non-member upper bound fail on the pinned tree and are "
-        "known findings identified by (operation, input); three defects of eval/min/the bounds functions were repaired.",
-   design="5/C22", technique="Coq proofs of cardinality, the two-interval union and the bounds-reading queries; correspondence by extraction; exhaustive small-width sweep of the real joins/meets/queries",
+        "known findings identified by (operation, input); five defects (eval of a singleton, the two bounds functions twice, "
+        "pseudo_join without smart_join) were repaired.",
+   design="5/C22", technique="Coq proofs of cardinality, pseudo_join, n-ary least_upper_bound and the bounds-reading queries; correspondence by extraction; exhaustive small-width sweep of the real joins/meets/queries",
    note="Trusted: Coq kernel; Model/SI.v, Model/SIUnion.v, Model/SICmp.v, Model/SIQuery.v; sweep oracle = member enumeration from the definition.")
 
 CHECKS["C23"] = dict(
